@@ -49,6 +49,7 @@ import (
 	"time"
 
 	"github.com/wi1dcard/fingerproxy/pkg/metadata"
+	"github.com/wi1dcard/fingerproxy/pkg/vhook"
 	"golang.org/x/net/http/httpguts"
 	"golang.org/x/net/http2/hpack"
 )
@@ -1620,6 +1621,7 @@ func (sc *serverConn) processFrame(f Frame) error {
 						Val: s.Val,
 					})
 				}
+				vhook.Point("http2.capture.settings", &md.HTTP2Frames)
 				md.HTTP2Frames.Settings = settings
 			}
 		}
@@ -1630,8 +1632,10 @@ func (sc *serverConn) processFrame(f Frame) error {
 			for _, h := range f.Fields {
 				headers = append(headers, metadata.HeaderField(h))
 			}
+			vhook.Point("http2.capture.headers", &md.HTTP2Frames)
 			md.HTTP2Frames.Headers = headers
 			if f.HasPriority() {
+				vhook.Point("http2.capture.headersPriority", &md.HTTP2Frames)
 				md.HTTP2Frames.Priorities = append(md.HTTP2Frames.Priorities,
 					metadata.Priority{
 						StreamId:  f.StreamID,
@@ -1644,6 +1648,7 @@ func (sc *serverConn) processFrame(f Frame) error {
 		return sc.processHeaders(f)
 	case *WindowUpdateFrame:
 		if md, ok := metadata.FromContext(sc.baseCtx); ok {
+			vhook.Point("http2.capture.windowUpdate", &md.HTTP2Frames)
 			if md.HTTP2Frames.WindowUpdateIncrement == 0 {
 				md.HTTP2Frames.WindowUpdateIncrement = f.Increment
 			}
@@ -1657,6 +1662,7 @@ func (sc *serverConn) processFrame(f Frame) error {
 		return sc.processResetStream(f)
 	case *PriorityFrame:
 		if md, ok := metadata.FromContext(sc.baseCtx); ok {
+			vhook.Point("http2.capture.priority", &md.HTTP2Frames)
 			md.HTTP2Frames.Priorities = append(md.HTTP2Frames.Priorities, metadata.Priority{
 				StreamId:  f.StreamID,
 				StreamDep: f.PriorityParam.StreamDep,
